@@ -1,6 +1,7 @@
 from typing import Any
 from sympy import Expr, log as sym_log, E, sqrt as sym_sqrt
 from sympy.core.parameters import global_parameters
+from . import verif_hooks as _verif_hooks
 
 _old_evaluation: bool = True
 
@@ -9,16 +10,22 @@ _old_evaluation: bool = True
 def disable_sympy_evaluation() -> None:
     _old_evaluation = global_parameters.evaluate
     global_parameters.evaluate = False
+    if _verif_hooks.enabled:
+        _verif_hooks.emit("evaluation", action="disable", flag=global_parameters.evaluate)
 
 
 def enable_sympy_evaluation() -> None:
     _old_evaluation = global_parameters.evaluate
     global_parameters.evaluate = True
+    if _verif_hooks.enabled:
+        _verif_hooks.emit("evaluation", action="enable", flag=global_parameters.evaluate)
 
 
 # Restores auto processing of expressions. Allows SymPy work with expressions properly.
 def reset_sympy_evaluation() -> None:
     global_parameters.evaluate = _old_evaluation
+    if _verif_hooks.enabled:
+        _verif_hooks.emit("evaluation", action="reset", flag=global_parameters.evaluate)
 
 
 def log(expr: Expr, base: Expr = E, **kwargs: Any) -> Expr:
